@@ -119,7 +119,7 @@ def stage_parsers(ctx):
                               {"kind": "parse", "path": p, "state_out": sout, "action_out": aout, "real": real, "expected": exp})
 
 
-def stage_node(ctx, e):
+def stage_node(ctx, e, only=None, n=None):
     """_restore_wait, release_files, idle refresh, open — on a real LustreHSMNodeIO with a scripted LFS object"""
     import alpenhorn.daemon.update as upd
     import alpenhorn.io.lfs as lfsmod
@@ -128,7 +128,7 @@ def stage_node(ctx, e):
     w = worldmod.World(e)
     db = w.db
     ops, exps, kinds = [], [], []
-    n = 360 if ctx.quick() else 6000
+    n = n or (360 if ctx.quick() else 6000)
     for it in range(n):
         for m in (db.StorageTransferAction, db.ArchiveFileCopyRequest, db.ArchiveFileImportRequest, db.ArchiveFileCopy,
                   db.ArchiveFile, db.ArchiveAcq, db.StorageNode, db.StorageGroup):
@@ -150,7 +150,7 @@ def stage_node(ctx, e):
                                           last_update=__import__("datetime").datetime(2020, 1, 1) + __import__("datetime").timedelta(days=rng.randint(0, 50), seconds=i))
             stub.states[str(c.path)] = rng.choice(STATES + [None])
             files.append(f); copies.append(c)
-        kind = rng.choice(["rwait", "release", "refresh", "open", "readytask", "checktask", "readytask", "checktask"])
+        kind = rng.choice(list(only) if only else ["rwait", "release", "refresh", "open", "readytask", "checktask", "readytask", "checktask"])
         if kind in ("readytask", "checktask"):
             # the whole task (generator with deferred re-queues) on the real queue: k waiting answers, then a final one
             import alpenhorn.io._default_asyncs as dasync
@@ -201,6 +201,11 @@ def stage_node(ctx, e):
                 dasync.check_async = real_check
                 del stub.hsm_restore
             after_ready = bool(db.ArchiveFileCopy.get(id=c.id).ready)
+            after_has = db.ArchiveFileCopy.get(id=c.id).has_file
+            if kind == "checktask" and after_has == "N" and c.has_file != "N" and exists_ans != "missing":
+                ctx.violation("task:missing-verdict-for-present-file", f"the HSM check task recorded the copy missing (has_file {c.has_file} -> N) "
+                              f"although lfs never reported the file missing (answer to the existence probe: {exists_ans}; the file is on disk)",
+                              {"kind": kind, "exists_answer": exists_ans, "answers": seq})
             enc = ",".join(f"{a[0] or '-'}/{'-' if a[1] is None else int(a[1])}" for a in answers)
             skip = kind == "checktask" and exists_ans == "missing"
             ops.append(f"hsmtask {'ready' if kind == 'readytask' else 'check'} - - {c.file_id} {exists_ans or '-'} {enc}")
